@@ -95,7 +95,7 @@ def run(t, budget=1.0):
         "(2) dfs [exhaustive]: literal enumeration of all sequences of depth<=2 (thorough: also depth<=3 for one configuration "
         "per compiler configuration) from each of the 31 states {a,b}^0..4. "
         "Both enumerations contain every *_self command for every element k and position/count (closure: all four reference "
-        "forms; dfs: d[k], front(), back()). "
+        "forms; dfs depth<=2: d[k], front(), back(); dfs depth 3: d[k]). "
         "(3) random: rapidcheck tape -> abstract commands resolved against the current model size (positions begin/end/middle/"
         "random, counts 0/1/fill/fill-1/random, ranges empty/to-end/random; *_self: reference form uniform, element uniform or one of "
         "the last three), capacities 0..40, 250..261 (uint8 length limit "
